@@ -29,6 +29,17 @@ def cases(tier, seed):
             scn["pattern"] = [["iter", k], ["solve"]]
         elif u < 0.4:
             scn["pattern"] = [["iter", 1]] * int(rng.integers(2, 30))
+        elif u < 0.55:
+            # the run is continued beyond the budget it was started with: Solve, raise itersLimit, Solve again / step on
+            first = int(rng.integers(3, 25))
+            more = int(rng.integers(20, 300 if tier == "quick" else 1500))
+            scn["iters"] = first
+            scn["eps"] = max(scenario.eps_floor(scn["N"], scn["m"]) * 1.01, min(scn["eps"], 0.02))
+            if rng.random() < 0.5:
+                scn["pattern"] = [["solve"], ["set", "itersLimit", first + more], ["solve"]]
+            else:
+                scn["pattern"] = [["solve"], ["iter", more]]
+            scn["continued"] = True
         out.append(scn)
     return out
 
@@ -60,6 +71,9 @@ def run_case(scn):
         obs["M_not_comparable"] = 1
     obs.update(a["events"])
     obs["runs"] = 1
+    if scn.get("continued"):
+        obs["continued_beyond_first_budget"] = 1
+        obs["max_trials_beyond_first_budget"] = max(0, len(xs) - scn["iters"])
     obs["trials"] = len(xs)
     obs["max_worst_gap"] = a["worst_gap"]
     obs["dims"] = [scn["N"]]
@@ -74,7 +88,7 @@ def finalize(obs, tier, stats):
     need = 5000 if tier == "quick" else 100000
     if obs.get("audited", 0) < need:
         return "only %d trials audited (< %d)" % (obs.get("audited", 0), need), {}
-    missing = [k for k in ("M_grew", "zstar_improved", "ties", "boundary_chosen", "branch_pos", "branch_neg") if not obs.get(k)]
+    missing = [k for k in ("M_grew", "zstar_improved", "ties", "boundary_chosen", "branch_pos", "branch_neg", "continued_beyond_first_budget") if not obs.get(k)]
     if missing:
         return "mechanisms never observed: %s" % missing, {}
     return None, {}
